@@ -528,9 +528,9 @@ def gen_configs(tier, seed):
         sync_plan = [(n, sym4, 2, (1, 2, 3), None) for n in range(0, 3)] + [(3, sym3, 2, (1, 2, 3), None)]
         async_plan = [(n, sym4, (1, 2, 3)) for n in range(0, 3)] + [(3, sym3, (2, 3))]
     else:
-        sync_plan = [(n, sym4, 2, (1, 2, 3), None) for n in range(0, 4)] + [(4, sym3, 2, (1, 2, 3), None),
+        sync_plan = [(n, sym4, 2, (1, 2, 3), None) for n in range(0, 4)] + [(4, sym3, 1, (2, 3), 'two'),
                                                                           (5, [b'a', b'\n'], 1, (2, 3), 'one')]
-        async_plan = [(n, sym4, (1, 2, 3)) for n in range(0, 4)] + [(4, sym3, (2, 3))]
+        async_plan = [(n, sym4, (1, 2, 3)) for n in range(0, 4)] + [(4, sym3, (3,))]
     for n, sym, maxcuts, chunks, decl_mode in sync_plan:
         for tup in itertools.product(sym, repeat=n):
             data = b''.join(tup)
@@ -570,7 +570,7 @@ def gen_configs(tier, seed):
                 if tier == 'quick':
                     maxcuts = 2 if n <= 4 else (1 if n == 5 else 0)
                 else:
-                    maxcuts = 2 if n <= 6 else 1
+                    maxcuts = 2 if n <= 5 else (1 if n == 6 else 0)
                 if len(cuts) > maxcuts:
                     continue
                 for chunk in (3, 4):
